@@ -8,7 +8,7 @@ from . import model
 from . import options
 from . import file_processor
 from .file_processor import FileProcessor
-from .generators.base import GenerateError
+from .generators.base import GenerateError, write_files
 
 __version__ = '1.2.5'
 
@@ -163,12 +163,14 @@ def generate_target_files(emit, serializers, model_nodes):
             except GenerateError as e:
                 emit.error(str(e))
 
+    rendered = []
     for basename, nodes in model_nodes.items():
         for serializer in serializers:
             try:
-                serializer.serialize(nodes, basename)
+                rendered.extend(serializer.render(nodes, basename))
             except GenerateError as e:
                 emit.error(str(e))
+    write_files(rendered)
 
 
 @contextmanager
